@@ -12,7 +12,7 @@ from amaranth.lib import memory as libmem
 from amaranth.sim import Simulator
 
 
-def simulate(h, trace, probe_names=None):
+def simulate(h, trace, probe_names=None, pre_elab=False):
     probes = [(n, p) for n, p in h.probes if probe_names is None or n in probe_names]
     ins = [AValue.cast(s) for _, s in h.inputs]
     result = []
@@ -38,6 +38,11 @@ def simulate(h, trace, probe_names=None):
 
     with warnings.catch_warnings():
         warnings.simplefilter("ignore")
+        if pre_elab:
+            # configurations flagged elab_twice: the instance has been elaborated once before it is simulated
+            from amaranth.hdl import Fragment
+            from amaranth.hdl._ir import build_netlist
+            build_netlist(Fragment.get(h.top, None), ports=[])
         # a design without any synchronous logic has no "sync" domain: give the simulator one
         from amaranth.hdl import Module, Signal
         wrap = Module()
